@@ -4,9 +4,7 @@ import (
 	"fmt"
 	"go/ast"
 	"go/types"
-	"os"
 	"reflect"
-	"runtime/pprof"
 	"sort"
 	"strings"
 	"time"
@@ -231,12 +229,6 @@ func c11Set(c *kit.Ctx) (set []*kit.Func, writers []*kit.Func, roots map[*kit.Fu
 }
 
 func runC11(c *kit.Ctx) {
-	if pf := os.Getenv("SIOT_PPROF"); pf != "" {
-		if fh, err := os.Create(pf); err == nil {
-			pprof.StartCPUProfile(fh)
-			defer pprof.StopCPUProfile()
-		}
-	}
 	r1 := c.Rule("R1", "reflect index/slice/length bounded by 0 and Len()/Cap() of the same value", 5)
 	r2 := c.Rule("R2", "kind, validity and nil preconditions of reflect calls", 60)
 	set, writers, roots := c11Set(c)
